@@ -159,28 +159,29 @@ def lazyTravelTime (A : Ar R S) (start dur : R) (nested : List (Nested R S)) : R
 
 /-! ## `compute_slider_cursor_pos` -/
 
+/-- `required_movement`: `NORMALIZED_RADIUS` for a repeat that is not the last nested object, else
+`ASSUMED_SLIDER_RADIUS` -/
+def reqOf (A : Ar R S) (i n : Nat) (o : Nested R S) : R :=
+  if i ≠ n ∧ o.kind = 0 then A.intR 50 else A.toR A.assumedRadius
+
+/-- `curr_movement`: towards the nested object; for the last one the shorter of that and the
+movement towards the lazy end position -/
+def moveOf (A : Ar R S) (stackOff : P S) (i n : Nat) (o : Nested R S) (curr lazyEnd : P S) : P S :=
+  if i = n ∧ A.ltS (A.length (A.psub lazyEnd curr)) (A.length (A.psub (A.padd o.pos stackOff) curr)) = true
+  then A.psub lazyEnd curr else A.psub (A.padd o.pos stackOff) curr
+
 /-- the loop over `nested.iter().zip(1..)`; `n` = `nested.len()`, state = (cursor, lazy end, dist) -/
 def cursorLoop (A : Ar R S) (sf : R) (stackOff : P S) (n : Nat) :
     List (Nested R S) → Nat → P S → P S → S → P S × S
   | [], _, _, lazyEnd, dist => (lazyEnd, dist)
   | o :: os, i, curr, lazyEnd, dist =>
-    let mv := A.psub (A.padd o.pos stackOff) curr
+    let mv := moveOf A stackOff i n o curr lazyEnd
     let len := A.mulR sf (A.toR (A.length mv))
-    let req := A.toR A.assumedRadius
-    let (mv, len, req) :=
-      if i = n then
-        let lazyMv := A.psub lazyEnd curr
-        let mv := if A.ltS (A.length lazyMv) (A.length mv) then lazyMv else mv
-        (mv, A.mulR sf (A.toR (A.length mv)), req)
-      else if o.kind = 0 then (mv, len, A.intR 50)
-      else (mv, len, req)
-    let (curr, dist) :=
-      if A.gtR len req then
-        let ratio := A.divR (A.subR len req) len
-        (A.padd curr (A.pmul mv (A.toS ratio)), A.addS dist (A.toS (A.mulR len ratio)))
-      else (curr, dist)
-    let lazyEnd := if i = n then curr else lazyEnd
-    cursorLoop A sf stackOff n os (i + 1) curr lazyEnd dist
+    let req := reqOf A i n o
+    let ratio := A.divR (A.subR len req) len
+    let curr' := if A.gtR len req then A.padd curr (A.pmul mv (A.toS ratio)) else curr
+    let dist' := if A.gtR len req then A.addS dist (A.toS (A.mulR len ratio)) else dist
+    cursorLoop A sf stackOff n os (i + 1) curr' (if i = n then curr' else lazyEnd) dist'
 
 /-- `compute_slider_cursor_pos(h, radius)` -/
 def computeCursor (A : Ar R S) (radius : R) (o : Obj R S) : Obj R S :=
